@@ -18,6 +18,10 @@ ASSUMPTIONS = [
     'a generic source container `O` (type parameter) is not tracked as message-carrying',
 ]
 
+MANIFEST = {'text': 'proof (all normal paths of both multi-source iterators) of: no message-carrying value (message, source, heap entry) is dropped unless its own next()/pop() returned None, no clone, '
+                    'no lossy container operation, index/return pairing, end of stream only after the container of sources is exhausted, key-based heap comparator; '
+                    'the constructors drop a container of sources only behind a proof that it holds exactly the one source taken (len() == 1 / exact size_hint). Ordering by reception time is not decided.'}
+
 SRC_TY = 'dyn std::iter::Iterator<Item = adlt::dlt::DltMessage>'
 
 
